@@ -83,6 +83,11 @@ impl Command {
             paths = new_paths;
         }
 
+        // Optional parts with the same spelling (e.g. `[A]:[A]:X`) produce the same path more
+        // than once, which must not be mistaken for a collision with another command.
+        paths.sort();
+        paths.dedup();
+
         paths
     }
 }
